@@ -67,11 +67,13 @@ pub fn gen_c08(rng: &mut Rng, tier: Tier) -> NetProgram {
         endpoints.push(gates[hops]);
         for w in gates.windows(2) {
             let chan = if rng.chance(2, 5) {
+                let bitrate = *rng.pick(&[0u64, 8_000, 1_000_000, 1_000_000_000]);
                 Some(Chan {
-                    bitrate: *rng.pick(&[0u64, 8_000, 1_000_000, 1_000_000_000]),
+                    bitrate,
                     latency_ns: *rng.pick(&[0u64, 1_000, 1_000_000, SEC]),
-                    jitter_ns: 0,
-                    queue: -1,
+                    jitter_ns: if rng.chance(1, 4) { *rng.pick(&[1_000u64, 1_000_000]) } else { 0 },
+                    // a hop that is never busy cannot lose anything, whatever its policy
+                    queue: if bitrate == 0 && rng.chance(1, 2) { *rng.pick(&[-2i64, 0]) } else { -1 },
                 })
             } else {
                 None
@@ -129,6 +131,22 @@ pub fn gen_c08(rng: &mut Rng, tier: Tier) -> NetProgram {
                     bt.acts.push(Act::Send { gate: g as u32, delay_ns: delay, body });
                 } else {
                     beats.push(Beat { at_ns: at, acts: vec![Act::Send { gate: g as u32, delay_ns: delay, body }] });
+                }
+            }
+        }
+    }
+    // bursts from one handler onto chains whose hops are never busy (bitrate 0 or no channel at all), judged on the
+    // graph the connect calls really build (an intended "third peer" call is an ordinary link if both gates are free)
+    {
+        let graph = crate::net_oracles::build_graph(&prog);
+        for &(m, g) in &endpoints {
+            let hops = graph.walk((m, g));
+            let never_busy = hops.iter().all(|h| h.1.as_ref().map_or(true, |c| c.bitrate == 0));
+            if rng.chance(1, 4) && never_busy && graph.degree((m, g)) < 2 {
+                if let Some(b) = prog.modules[m].beats.iter_mut().find(|b| b.acts.iter().any(|a| matches!(a, Act::Send { gate, delay_ns: 0, .. } if *gate == g as u32))) {
+                    for _ in 0..1 + rng.small(3) {
+                        b.acts.push(Act::Send { gate: g as u32, delay_ns: 0, body: rng.below(6) as u8 });
+                    }
                 }
             }
         }
@@ -245,7 +263,7 @@ pub fn gen_c07(rng: &mut Rng, tier: Tier) -> NetProgram {
 pub fn gen_c12(rng: &mut Rng, tier: Tier) -> NetProgram {
     let max_mods = if tier == Tier::Thorough { 40 } else { 24 };
     let nmod = 1 + rng.small(max_mods - 1) as usize;
-    let names = ["a", "ab", "abc", "a1", "b", "n", "node", "nod", "x", "a-b"];
+    let names = ["a", "ab", "abc", "a1", "b", "n", "node", "nod", "x", "a-b", "gebäude", "節点", "é"];
     let mut prog = NetProgram { seed: rng.u64(), ..Default::default() };
     let mut depth: Vec<usize> = Vec::new();
     let mut fanout: Vec<usize> = Vec::new();
@@ -282,6 +300,18 @@ pub fn gen_c12(rng: &mut Rng, tier: Tier) -> NetProgram {
     prog.order = order;
     for _ in 0..rng.small(2) {
         prog.bad_nodes.push(BadNode { pos: rng.below(nmod as u64 + 1) as u32, kind: rng.below(2) as u8, of: rng.below(nmod as u64) as u32 });
+    }
+    // a module may shut itself down during its first start-up stage: its later stages are still declared stages
+    if rng.chance(1, 8) {
+        let v = rng.usize(nmod);
+        prog.modules[v].start_acts = vec![Act::Shutdown { restart: -1, at: false }];
+    }
+    // an ordinary handler panic somewhere: tear-down still happens once for every module
+    if nmod >= 2 && rng.chance(1, 8) {
+        let v = rng.usize(nmod);
+        prog.modules[v].beats.push(Beat { at_ns: 5 * SEC, acts: vec![Act::Panic] });
+        prog.modules[v].beats.sort_by_key(|b| b.at_ns);
+        prog.modules[v].catching = rng.chance(1, 2);
     }
     // tear-down of one module may fail: every other module must still be torn down exactly once
     if nmod >= 2 && rng.chance(1, 5) {
